@@ -65,9 +65,9 @@ BASE_CHAINS = ["root-default", "solve-default", "root-lin", "root-loglin-cc"]
 HOMOG_CHAINS = ["root-log-rref", "roots", "stub", "root-x0", "root-x0-loglin", "roots-x0",
                 "root-square", "root-linrel", "root-lintanh", "root-static", "root-log-rp", "root-lin-rp",
                 "root-tol", "root-array", "root-ddict", "root-reuse", "solve-varied", "solve-varied2", "roots-index",
-                "root-log-re", "root-loglin-re"]
+                "root-log-re", "root-loglin-re", "root-rekey", "roots-loglin-cc", "root-solver", "roots-one"]
 SALT_CHAINS = ["root-x0", "root-log-rp", "root-tol", "root-array", "root-reuse", "root-ddict",
-               "root-log-rref", "root-log-re", "root-loglin-re"]
+               "root-log-rref", "root-log-re", "root-loglin-re", "root-static-salt", "root-rekey", "root-solver"]
 
 
 def _varied(names, c0, rng_val):
@@ -81,9 +81,14 @@ def row_inits(names, c0, guess, chain, rng_val, varied=None):
     (never read back from the code under test)"""
     def with_(base, subst):
         return [subst.get(t, c) for t, c in enumerate(base)]
-    if chain in ("roots", "roots-x0", "roots-index"):
+    if chain in ("roots", "roots-x0", "roots-index", "roots-loglin-cc"):
         j, vals = _varied(names, c0, rng_val)
         return [with_(c0, {j: v}) for v in vals]
+    if chain == "roots-one":
+        j, vals = _varied(names, c0, rng_val)
+        return [with_(c0, {j: vals[0]})]
+    if chain == "root-rekey":
+        return [list(c0), list(c0)]
     if chain == "solve-varied":
         j, vals = _varied(names, c0, rng_val)
         return [with_(c0, {j: v}) for v in (vals[0], vals[0] * 4)]
@@ -94,8 +99,19 @@ def row_inits(names, c0, guess, chain, rng_val, varied=None):
     return [list(c0)]
 
 
-def _call(es, names, c0, guess, chain, rng_val, varied=None):
-    """returns list of rows: dict(x, ok, sane) in call order"""
+REKEY_FACTOR = 10.0
+
+
+def row_consts(ks, chain):
+    """the constants each result row belongs to (root-rekey reassigns the first constant between two calls)"""
+    if chain == "root-rekey":
+        return [list(ks), [ks[0] * REKEY_FACTOR] + list(ks[1:])]
+    return None
+
+
+def _call(es, names, c0, guess, chain, rng_val, varied=None, saturation=None, ks=None):
+    """returns list of rows: dict(x, ok, sane[, intact]) in call order.  intact = the arguments handed in and
+    earlier results of the same object are unchanged after the call (a projection: element-wise equality)"""
     import collections
     import numpy as np
     from chempy import _eqsys
@@ -134,19 +150,46 @@ def _call(es, names, c0, guess, chain, rng_val, varied=None):
     if chain == "root-static":
         return one(es.root(init, neqsys_type="static_conditions"))
     if chain == "root-array":         # initial concentrations as a plain array in substance order
-        return one(es.root(np.array(c0, dtype=float)))
+        arr = np.array(c0, dtype=float)
+        rows = one(es.root(arr))
+        rows[0]["intact"] = bool(np.array_equal(arr, np.array(c0, dtype=float)))
+        return rows
+    if chain == "root-static-salt":   # the caller fixes the conditions (as the specification classified the salt)
+        return one(es.root(init, neqsys_type="static_conditions", precipitates=(saturation == "sat",)))
+    if chain == "root-solver":
+        return one(es.root(init, solver="scipy"))
+    if chain == "root-rekey":         # reassign a constant of the system between two calls
+        r1 = one(es.root(init))
+        x1 = list(r1[0]["x"])
+        es.rxns[0].param = ks[0] * REKEY_FACTOR
+        r2 = one(es.root(init))
+        r2[0]["intact"] = [float(a) for a in r1[0]["x"]] == [float(a) for a in x1] and \
+            all(float(init[k]) == float(v) for k, v in zip(names, c0))
+        return r1 + r2
     if chain == "root-ddict":         # a defaultdict that omits the zero entries
         return one(es.root(collections.defaultdict(float, {k: v for k, v in init.items() if v != 0})))
     if chain == "root-x0":            # explicit starting guess: another mixture of the same system
-        return one(es.root(init, x0))
+        rows = one(es.root(init, x0))
+        rows[0]["intact"] = bool(np.array_equal(x0, np.array(guess, dtype=float)))
+        return rows
     if chain == "root-x0-loglin":
         return one(es.root(init, x0, NumSys=(NumSysLog, NumSysLin)))
     if chain == "root-reuse":         # one prebuilt solver object used for two different problems
         neqsys = es.get_neqsys("chained_conditional", NumSys=(NumSysLog,))
-        return one(es.root(init, neqsys=neqsys)) + one(es.root(dict(zip(names, guess)), neqsys=neqsys))
-    if chain in ("roots", "roots-x0", "roots-index"):
+        r1 = one(es.root(init, neqsys=neqsys))
+        x1 = [float(a) for a in r1[0]["x"]]
+        r2 = one(es.root(dict(zip(names, guess)), neqsys=neqsys))
+        r2[0]["intact"] = [float(a) for a in r1[0]["x"]] == x1     # the earlier result is not overwritten
+        return r1 + r2
+    if chain == "roots-one":          # a single level
+        j, vals = _varied(names, c0, rng_val)
+        xs, infos, sanity = es.roots(init, [vals[0]], names[j])
+        return [dict(x=list(x), ok=_success(i), sane=bool(s)) for x, i, s in zip(xs, infos, sanity)]
+    if chain in ("roots", "roots-x0", "roots-index", "roots-loglin-cc"):
         j, vals = _varied(names, c0, rng_val)
         kw = {"x0": x0} if chain == "roots-x0" else {}
+        if chain == "roots-loglin-cc":
+            kw = {"NumSys": (NumSysLog, NumSysLin), "neqsys_type": "conditional_chained"}
         if chain == "roots-index":    # varied substance by index, values as an array
             xs, infos, sanity = es.roots(init, np.array(vals), j)
         else:
@@ -215,7 +258,7 @@ def run_problem(job):
     c0 = [ec.dec_float(v) for v in inp["c0"]]
     guess = [ec.dec_float(v) for v in inp.get("guess", inp["c0"])]
     # species by explicit composition or by formula (the names are formulae of the same composition)
-    spform = "formula" if (rng_val // 3) % 2 else "comp"
+    spform = ("comp", "formula", "alias")[(rng_val // 3) % 3]    # alias: mapping keys differ from Substance.name
     names = [sp["name"] for sp in inp["species"]]
     ns = len(names)
     rec.install()
@@ -225,7 +268,7 @@ def run_problem(job):
         warnings.simplefilter("ignore")
         try:
             es, names = ec.build_system(inp["species"], inp["nu"], ks, spform=spform)
-            rows = _call(es, names, c0, guess, chain, rng_val, inp.get("varied"))
+            rows = _call(es, names, c0, guess, chain, rng_val, inp.get("varied"), case["exp"].get("saturation"), ks)
         except Exception as ex:  # projected: exception -> class name + text
             exc = "%s: %s" % (type(ex).__name__, str(ex)[:120])
     events = rec.stop()
@@ -251,7 +294,8 @@ def run_problem(job):
             if e["ev"] == "cond" and e.get("xd") is None:
                 e["xd"] = e["x"]
         c0enc, _ = ec.enc_vec(c0row, s_exp)
-        lnk = [int(round(math.log(k) * 1e6)) for k in ks]
+        rks = (row_consts(ks, chain) or [ks] * len(inits))[idx]
+        lnk = [int(round(math.log(k) * 1e6)) for k in rks]
         tr = [{"ev": "problem", "rs": inp["rids"], "lnK": lnk, "c0": c0enc, "sexp": s_exp}] + body
         meta = dict(chain=chain, rids=inp["rids"], cls=case["cls"], saturation=case["exp"].get("saturation"), K=inp["K"], c0=[float("%.6g" % v) for v in c0row],
                     wellcond=bool(case["exp"]["wellcond"]), clipped=clipped, row=idx, spform=spform)
@@ -260,7 +304,7 @@ def run_problem(job):
             meta.update(exc=exc, ok=False, sane=False)
             zero, _ = ec.enc_vec([0.0] * ns, s_exp)
             tr.append({"ev": "result", "x": zero, "ok": False, "sane": False, "exc": True, "nan": False,
-                       "judged": chain != "stub"})
+                       "judged": chain != "stub", "intact": True})
         else:
             r = rows[idx]
             xs = _as_vector(r["x"], ns)      # whatever came back travels as a vector of ns numbers (nan = not one)
@@ -270,28 +314,38 @@ def run_problem(job):
             meta.update(ok=r["ok"], sane=r["sane"], x=[float("%.9g" % float(v)) for v in r["x"]],
                         clipped=clipped or c2)
             tr.append({"ev": "result", "x": xenc, "ok": r["ok"], "sane": r["sane"], "exc": False, "nan": xnan,
-                       "judged": chain != "stub"})
+                       "judged": chain != "stub", "intact": bool(r.get("intact", True))})
             if chain == "root-default" and case["exp"]["single"]:
                 br = _bracket(inp, c0row, ks, s_exp)
                 if br is not None:
                     tr.append(br[0])
                     meta["bracket"] = br[1]
+                br2 = _bracket(inp, c0row, ks, s_exp, activity=2.0)   # option away from its default
+                if br2 is not None:
+                    tr.append(br2[0])
+                    meta["bracket_activity"] = br2[1]
         out.append((tr, meta))
     return out
 
 
-def _bracket(inp, c0row, ks, s_exp):
-    """chempy._equilibrium.solve_equilibrium on a single-equilibrium problem -> bracket event"""
+def _bracket(inp, c0row, ks, s_exp, activity=None):
+    """chempy._equilibrium.solve_equilibrium on a single-equilibrium problem -> bracket event; activity: a
+    constant activity product g (law Q g = K; dl = micro-ln of g by the fixed encoder)"""
     from chempy._equilibrium import solve_equilibrium
+    dl = 0 if activity is None else int(round(math.log(activity) * 1e6))
     with warnings.catch_warnings():
         warnings.simplefilter("ignore")
         try:
-            x2 = solve_equilibrium(c0row, inp["nu"][0], ks[0])
+            if activity is None:
+                x2 = solve_equilibrium(c0row, inp["nu"][0], ks[0])
+            else:
+                x2 = solve_equilibrium(c0row, inp["nu"][0], ks[0], activity_product=lambda c: activity)
         except Exception as ex:
-            return {"ev": "bracket", "raised": True, "x": ec.enc_vec([0.0] * len(c0row), s_exp)[0]}, \
+            return {"ev": "bracket", "raised": True, "dl": dl, "x": ec.enc_vec([0.0] * len(c0row), s_exp)[0]}, \
                 "%s: %s" % (type(ex).__name__, str(ex)[:100])
     enc, _ = ec.enc_vec(list(x2), s_exp)
-    return {"ev": "bracket", "raised": False, "x": enc}, [float("%.9g" % float(v)) for v in x2]
+    return {"ev": "bracket", "raised": False, "dl": dl, "x": ec.enc_vec(_as_vector(x2, len(c0row)), s_exp)[0]}, \
+        [float("%.9g" % v) for v in _as_vector(x2, len(c0row))]
 
 
 # ------------------------------------------------------------------ judging
@@ -344,6 +398,8 @@ def _plan(ctx, cases):
         extra = list(HOMOG_CHAINS if homog else SALT_CHAINS)
         ctx.rng.shuffle(extra)
         chains += extra[:4] if ctx.quick else extra[:10]
+        if c["exp"].get("saturation") not in ("sat", "unsat"):
+            chains = [ch for ch in chains if ch != "root-static-salt"]
         if not c["in"].get("varied", {}).get("grid"):
             chains = [ch for ch in chains if ch != "solve-varied2"]
         for ch in chains:
